@@ -123,3 +123,18 @@ package index
 //gvc:  ensures dropped: err == nil && entry == nil ==> i < 0 && calls("ReadFrom") == 0
 //gvc:  ensures kept: err == nil && i >= 0 ==> entry != nil && entry.Entries == i && entry.Trees == subtrees && calls("ReadFrom") == 1
 //gvc:end
+
+// timeToUint32 (C12: decoding go-git's output gives back what was encoded):
+// the 32-bit seconds field of an index entry holds the time's real number of
+// seconds -- a time that does not fit (before 1970, from 2106 on) is refused,
+// never cut down to its low 32 bits.
+//gvc:func (*Encoder).timeToUint32
+//gvc:  props C12
+//gvc:  theory int
+//gvc:  opt coarse
+//gvc:  opt frame args
+//gvc:  results sec nsec err
+//gvc:  requires nn: t != nil
+//gvc:  ensures whole: err == nil && !spec_time_zero(t.wall, t.ext) ==> sec == spec_time_unix(t.wall, t.ext)
+//gvc:  ensures zero: spec_time_zero(t.wall, t.ext) ==> err == nil && sec == 0 && nsec == 0
+//gvc:end
